@@ -24,7 +24,7 @@ CLAIMED = {
          "Same reference evaluator as C03; bindings derived from unspecified values are not compared.",
          "DESIGN.md §4 C06"),
  "C07": ("model-based property testing: programs with logging handlers at every position; the engine's call log is compared with the log predicted by a reference traversal; one injected Err at a generated call position",
-         "Exploration: ~200k programs with observable context/global functions and prefix/infix/postfix/SETTER operators; call order, call count, arguments, laziness of conditionals and stop-at-first-error are decided by exact log equality and context equality.",
+         "Exploration: ~200k programs with observable context/global functions and prefix/infix/postfix/SETTER operators; call order, call count, arguments, laziness of conditionals and stop-at-first-error are decided by exact log equality and context equality; a third of the programs are run a second time in the form the engine's own expr() writes them, with the same expectations.",
          "Loggers are harness handlers registered under reserved vh_ names; positions the statement does not pin (non-name assignment targets) carry no observable.",
          "DESIGN.md §4 C07"),
  "C15": ("fault injection by enumeration: for every generated program, every handler invocation k and both modes (Err, panic) the k-th invocation fails; log, unwind payload, context and a follow-up battery are checked against the model",
@@ -32,7 +32,7 @@ CLAIMED = {
          "Panics are injected in-process under catch_unwind; lock state is read through the cfg-guarded locks_free() hook and the context's public mutex.",
          "DESIGN.md §4 C15"),
  "C16": ("stateful property testing: generated histories of exec / parse-only / parse-once-exec-many / re-registration steps dispatched to persistent worker threads and concurrent bursts; every occurrence must reproduce the solo outcome; depth sweeps",
-         "Exploration: ~30k histories (6-30 steps, 1-4 threads) over pools of programs that share names; outcomes (result and final context) compared with the reference evaluator's solo outcome, parse results with the reference parser under the last registration; 1/64 of cases cross-check the solo outcome in a fresh process.",
+         "Exploration: ~30k histories (6-30 steps, 1-4 threads) over pools of programs that share names; outcomes (result and final context) compared with the reference evaluator's solo outcome, parse results with the reference parser under the last registration; parse-only steps must neither hold a lock nor invoke a registered handler; 1/64 of cases cross-check the solo outcome in a fresh process.",
          "Concurrent bursts sample free-running interleavings; the harness's own registrations are modelled.",
          "DESIGN.md §4 C16"),
  "C05": ("property-based testing with an exhaustive component: all token sequences up to length 5 (quick) / 6 (thorough) over a 23-symbol alphabet, plus generated corruptions of valid programs, against a lenient nondeterministic reference recogniser (one-directional oracle)",
@@ -53,7 +53,7 @@ CLAIMED = {
          "An operator registered on an existing level takes that level's associativity; postfix spellings are kept disjoint from prefix/infix ones (both undocumented otherwise).",
          "DESIGN.md §4 C08"),
  "C13": ("schedule-directed and free-running concurrency testing in fresh child processes: held initialisation through the init probe, barrier races of first calls, re-registration vs evaluation (directed handshake and free-running), against the set of sequentially possible results and a final-state battery",
-         "Exploration: the directed matrix (6 first-call kinds x 3 init stages x 16 concurrent call kinds), ~250 generated held schedules, ~230 barrier races of 2-16 threads and ~200 re-registration races (~800k concurrent evaluations) per quick run; no panic, no deadlock (watchdog), every result sequentially explainable, every registration in effect afterwards. Interleavings the harness cannot force are only sampled.",
+         "Exploration: the directed matrix (6 first-call kinds x 3 init stages x 16 concurrent call kinds), ~250 generated held schedules, ~230 barrier races of 2-16 threads, ~200 re-registration races (~800k concurrent evaluations), fresh-word registration races (30000 words each) and registration storms (2-8 threads x 300000 registrations) per quick run; no panic, no deadlock (watchdog), every result sequentially explainable, every registration in effect afterwards. Interleavings the harness cannot force are only sampled.",
          "Needs the cfg-guarded init probe; deadlock = 10 s watchdog reproduced; the listed known finding (torn registration) is tolerated by exact signature only.",
          "DESIGN.md §4 C13"),
  "C14": ("exhaustive matrix plus generated chains in fresh child processes: every handler kind x every re-entrant action, each handler probing all engine locks with try_lock before acting, under a watchdog",
